@@ -27,7 +27,41 @@ import unittest
 class T(unittest.TestCase):
     def test_x(self):
         pass
+
+
+def alt_suite():
+    # only reachable through --suite-name alt_suite
+    class T2(unittest.TestCase):
+        def test_y(self):
+            pass
+    return unittest.TestSuite([T2('test_y')])
 '''
+
+# the compiled extension the runner's interpreter accepts under --usecompiled
+# (find.strip_py_ext: ".pyc", or ".pyo" when running with -O; it never runs with -O here)
+COMPILED_EXT = '.pyc'
+_compiled_body = []
+
+
+def compiled_body():
+    """PY_BODY compiled by the interpreter that runs the runner
+    (py_compile.compile(src, cfile=..., doraise=True)); the bytes do not depend
+    on where the file is put, so one compilation serves every tree"""
+    if not _compiled_body:
+        d = tempfile.mkdtemp(prefix='verif-pyc-')
+        try:
+            src = os.path.join(d, 'body.py')
+            with open(src, 'w') as f:
+                f.write(PY_BODY)
+            subprocess.run([runlib.PY, '-c',
+                            'import py_compile, sys; py_compile.compile(sys.argv[1], cfile=sys.argv[2], '
+                            'dfile="body.py", doraise=True)', src, os.path.join(d, 'body.pyc')],
+                           check=True, env=runlib.base_env(), stdin=subprocess.DEVNULL)
+            with open(os.path.join(d, 'body.pyc'), 'rb') as f:
+                _compiled_body.append(f.read())
+        finally:
+            shutil.rmtree(d, ignore_errors=True)
+    return _compiled_body[0]
 
 
 def shm_root():
@@ -46,9 +80,10 @@ def closure(paths):
     return out
 
 
-def materialise(top, paths, order_key, contents=None):
+def materialise(top, paths, order_key, contents=None, compiled=()):
     """paths: {relpath: 'file'|'dir'}; siblings are created in the order given
-    by order_key (tmpfs lists directories in (reverse) creation order)."""
+    by order_key (tmpfs lists directories in (reverse) creation order);
+    compiled: the paths that are real, importable byte-code of PY_BODY."""
     paths = closure(paths)
     os.makedirs(top, exist_ok=True)
     for p in sorted(paths, key=lambda p: (p.count('/'), order_key(p))):
@@ -57,6 +92,10 @@ def materialise(top, paths, order_key, contents=None):
             os.makedirs(full, exist_ok=True)
         else:
             os.makedirs(os.path.dirname(full), exist_ok=True)
+            if p in compiled:
+                with open(full, 'wb') as f:
+                    f.write(compiled_body())
+                continue
             data = (contents or {}).get(p)
             if data is None:
                 data = PY_BODY if p.endswith('.py') else 'data of %s\n' % p
@@ -70,20 +109,21 @@ def name_facts(names, tests_pat=DEFAULT_TESTS, file_pat=DEFAULT_FILE, ignore_dir
     ranked = sorted(names)
     facts = {}
     for n in names:
-        stem = n[:-3] if n.endswith('.py') else None
+        stem = n[:-3] if n.endswith('.py') else n[:-len(COMPILED_EXT)] if n.endswith(COMPILED_EXT) else None
         facts[n] = {
             'ident': bool(IDENT.match(n)), 'ignF': n in IGNORE_FOLDERS, 'ignD': n in ign,
             'tdir': bool(re.search(tests_pat, n)), 'py': n.endswith('.py'),
             'stemT': bool(stem is not None and stem and re.search(tests_pat, stem)),
             'stemF': bool(stem is not None and stem and re.search(file_pat, stem)),
             'init': n == '__init__.py', 'comp': n[-4:] in ('.pyc', '.pyo'),
+            'cext': n.endswith(COMPILED_EXT), 'initc': n == '__init__' + COMPILED_EXT,
             'sib': n[:-1], 'pyc': n == '__pycache__', 'rank': ranked.index(n),
             'bare': n in ('.pyc', '.pyo'),
         }
     return facts
 
 
-def tree_record(paths, roots, mpats=(), keep=False, walk=None, root_pkgs=None, **pat):
+def tree_record(paths, roots, mpats=(), keep=False, walk=None, root_pkgs=None, usecompiled=False, **pat):
     """paths (closed) -> the T record of Discovery.tla; roots: relpaths ('' = top)"""
     names = sorted({p.split('/')[-1] for p in paths})
     entries = {}
@@ -96,7 +136,8 @@ def tree_record(paths, roots, mpats=(), keep=False, walk=None, root_pkgs=None, *
 
     def dotted(p, r):
         rel = p[len(r) + 1:] if r else p
-        name = (rel[:-3] if rel.endswith('.py') else rel).replace('/', '.')
+        name = (rel[:-3] if rel.endswith('.py') else
+                rel[:-len(COMPILED_EXT)] if rel.endswith(COMPILED_EXT) else rel).replace('/', '.')
         return (root_pkgs[r] + '.' + name) if root_pkgs.get(r) else name
     mm = {}
     for p, kind in paths.items():
@@ -112,7 +153,7 @@ def tree_record(paths, roots, mpats=(), keep=False, walk=None, root_pkgs=None, *
             'walkT': [bool(re.search(tests_pat, os.path.basename(r))) if r else False
                       for r in (walk if walk is not None else roots)],
             'mpats': [{'neg': m.startswith('!')} for m in mpats],
-            'mmatch': mm or {'_': {'': []}}, 'keep': bool(keep)}
+            'mmatch': mm or {'_': {'': []}}, 'keep': bool(keep), 'usecompiled': bool(usecompiled)}
 
 
 def snapshot(top):
@@ -144,7 +185,28 @@ def run_runner(top, args, timeout=120, env_extra=None):
             mod, path = line.rstrip('\n').split('\t')
             imported.append((mod, os.path.relpath(path, top)))
     os.unlink(log)
-    return {'rc': rc, 'stdout': out, 'stderr': err, 'imported': imported}
+    return {'rc': rc, 'stdout': out, 'stderr': err, 'imported': imported,
+            'listed': listed_files(out, imported)}
+
+
+def listed_files(out, imported):
+    """--list-tests output projected onto files: every listed test is looked up
+    (its printed id, whatever this interpreter's str(test) looks like) among
+    the ids of the tests PY_BODY defines in the modules that logged an import"""
+    ids = {}
+    for mod, path in imported:
+        for cls, meth in (('T', 'test_x'), ('alt_suite.<locals>.T2', 'test_y')):
+            ids['%s (%s.%s.%s)' % (meth, mod, cls, meth)] = path
+            ids['%s (%s.%s)' % (meth, mod, cls)] = path
+    listed, inside = [], False
+    for line in out.splitlines():
+        if line.startswith('Listing ') and line.endswith(' tests:'):
+            inside = True
+        elif inside and line.startswith('  '):
+            listed.append(ids.get(line.strip(), '?' + line.strip()))
+        else:
+            inside = False
+    return listed
 
 
 def run_case(case):
@@ -155,7 +217,7 @@ def run_case(case):
     try:
         keyf = {'sorted': lambda p: p, 'reverse': lambda p: [-ord(c) for c in p],
                 'hash': lambda p: hashlib.md5((case['id'] + p).encode()).hexdigest()}[case['order']]
-        paths = materialise(top, case['paths'], keyf, case.get('contents'))
+        paths = materialise(top, case['paths'], keyf, case.get('contents'), set(case.get('compiled') or ()))
         # symlinked directories: the target lives outside the tree; logically
         # (for the walk, which follows such links) its content is below the link
         links = {}
@@ -193,7 +255,8 @@ def run_case(case):
                 args += ['--package-path', full, pkgs[r]]
             else:
                 args += [case.get('path_flag', '--path'), full]
-        args += case['args']
+        # "{top}..." in an argument stands for the tree's absolute location
+        args += [a.replace('{top}', top) if a.startswith('{top}') else a for a in case['args']]
         res = run_runner(top, args, env_extra=extra_env)
         after = snap()
         res['paths'] = paths
